@@ -33,6 +33,9 @@ def parseTok (s : String) : Option Tok :=
            prefixNl := pnl, line := line, col := col }
   | _ => none
 
+/-- the message text of an error token is not compared -/
+def noMsg (t : Tok) : Tok := if t.id = 0 then { t with val := [] } else t
+
 def nameText (s : String) : String := if s.isEmpty then "~" else s
 
 partial def treeText (n : Node) : String :=
@@ -59,15 +62,21 @@ def runCase (payload : String) : String :=
   match payload.splitOn " " with
   | [_src, "UNVERIFIED"] => "SKIPPED"                -- the real lexer is broken; this source was not lexed
   | [_src, "LEXCRASH"] => "LEXER-FAILED-IN-GENERATOR"   -- the real lexer died / hung on this source
-  | [_src, toks] =>
+  | [src, toks] =>
     let toks? := if toks = "-" then some [] else (toks.splitOn ",").mapM parseTok
     match toks? with
     | none => "bad-payload"
     | some ts =>
-      let k := consumed ts
+      let both := parseBoth ts      -- = (parseToks ts, consumed ts): `parseBoth_fst`, `parseBoth_snd`
+      let k := both.2
       let tail := " leak=" ++ b01 (Ecal.Chan.leaks .sync ts.length (k + 2))
-      let nt := if ts.length ≥ 3 then "\tnt=1" else ""
-      match parseToks ts with
+      -- `la`: the LEXER MODEL (Model/Lexer.lean; `parse_end_to_end` is about `parse = parseToks ∘ lex`) yields the
+      -- token list of the real lexer on this source (not compared - the lexer tie is C18's; counted as evidence)
+      let la := match hexDecode src with
+        | some bytes => if bytes.length > 300000 then "-" else b01 (((lex bytes).toList.map noMsg) == ts.map noMsg)
+        | none => "-"
+      let nt := (if ts.length ≥ 3 then "\tnt=1" else "") ++ "\tla=" ++ la
+      match both.1 with
       | (some t, none) => "OK " ++ treeText t ++ " wf=" ++ b01 (WellFormed t && WellFormedRoot t && walkable t) ++ tail ++ nt
       | (none, some (.perr kind l c)) =>
         let line := "ERR " ++ kindText kind ++ " " ++ toString l ++ " " ++ toString c ++ tail
